@@ -343,12 +343,27 @@ int32_t jls_twr_signal_def(struct jls_twr_s * self, const struct jls_signal_def_
     return rv;
 }
 
-// data_size only describes BINARY data: strings are queued up to and including their terminator
-static uint32_t msg_data_size(enum jls_storage_type_e storage_type, const uint8_t * data, uint32_t data_size) {
-    if ((NULL != data) && ((storage_type == JLS_STORAGE_TYPE_STRING) || (storage_type == JLS_STORAGE_TYPE_JSON))) {
-        return (uint32_t) strlen((const char *) data) + 1;
+// The payload size of a message.  data_size only describes BINARY data: strings are queued
+// up to and including their terminator, a placeholder carries nothing, and a storage
+// type that the writer would refuse (the message header keeps 8 bits of it) is refused here.
+static int32_t msg_data_size(enum jls_storage_type_e storage_type, const uint8_t * data, uint32_t data_size, uint32_t * size) {
+    switch (storage_type) {
+        case JLS_STORAGE_TYPE_INVALID:
+            *size = 0;
+            return 0;
+        case JLS_STORAGE_TYPE_BINARY:
+            *size = data_size;
+            return 0;
+        case JLS_STORAGE_TYPE_STRING:  // intentional fall-through
+        case JLS_STORAGE_TYPE_JSON:
+            if (NULL == data) {
+                return JLS_ERROR_PARAMETER_INVALID;
+            }
+            *size = (uint32_t) strlen((const char *) data) + 1;
+            return 0;
+        default:
+            return JLS_ERROR_PARAMETER_INVALID;
     }
-    return data_size;
 }
 
 int32_t jls_twr_user_data(struct jls_twr_s * self, uint16_t chunk_meta,
@@ -363,7 +378,9 @@ int32_t jls_twr_user_data(struct jls_twr_s * self, uint16_t chunk_meta,
             },
             .d = 0
     };
-    return msg_send(self, &hdr, data, msg_data_size(storage_type, data, data_size));
+    uint32_t size = 0;
+    ROE(msg_data_size(storage_type, data, data_size, &size));
+    return msg_send(self, &hdr, data, size);
 }
 
 int32_t jls_twr_fsr(struct jls_twr_s * self, uint16_t signal_id,
@@ -446,7 +463,12 @@ int32_t jls_twr_annotation(struct jls_twr_s * self, uint16_t signal_id, int64_t 
             },
             .d = 0
     };
-    return msg_send(self, &hdr, data, msg_data_size(storage_type, data, data_size));
+    uint32_t size = 0;
+    if (((unsigned int) annotation_type) > 0xff) {
+        return JLS_ERROR_PARAMETER_INVALID;  // the message header keeps 8 bits
+    }
+    ROE(msg_data_size(storage_type, data, data_size, &size));
+    return msg_send(self, &hdr, data, size);
 }
 
 JLS_API int32_t jls_twr_utc(struct jls_twr_s * self, uint16_t signal_id, int64_t sample_id, int64_t utc) {
